@@ -19,6 +19,9 @@
 #include <functional>
 #include <thread>
 #include <mutex>
+#if defined(_OPENMP)
+#include <omp.h>
+#endif
 #include <unistd.h>
 #include <poll.h>
 #include <errno.h>
@@ -86,6 +89,15 @@ public:
   std::vector<std::pair<std::string, int> > last_cvc_items;
   std::vector<std::string> last_bias_items;
   bool cvc_loop_ran = false, bias_loop_ran = false;
+  std::vector<int> last_item_threads;          // (C12) OpenMP thread of every item of the last component loop (smp omp)
+  static int colvarproxy_smp_thread()
+  {
+#if defined(_OPENMP)
+    return omp_get_thread_num();
+#else
+    return 0;
+#endif
+  }
 
   vsim_proxy(vsim_engine *e, bool quiet_in = true) : eng(e), quiet(quiet_in)
   {
@@ -355,7 +367,13 @@ public:
                                                   (*(cv->variables_active_smp_items()))[i]));
       }
     }
-    if (eng->smp == "omp") return colvarproxy_smp::smp_loop(n_items, worker);
+    if (eng->smp == "omp") {
+      // (C12) the library's own loop; record which OpenMP thread ran each item (every entry is written by one thread only)
+      last_item_threads.assign(n_items, -1);
+      std::vector<int> *rec = &last_item_threads;
+      return colvarproxy_smp::smp_loop(n_items, [rec, &worker](int i) { (*rec)[i] = colvarproxy_smp_thread(); return worker(i); });
+    }
+    last_item_threads.clear();
     // explicit permutation, items dealt to nthreads std::threads
     std::vector<int> order = schedule_order(n_items);
     int error_code = COLVARS_OK;
@@ -395,6 +413,23 @@ public:
     record_bias_items(true);
     if (eng->smp == "omp") return colvarproxy_smp::smp_biases_script_loop();
     return biases_schedule(true);
+  }
+  // (C12) scripted variables: `scriptedFunction vsum` = the sum of all component values (what a Tcl procedure calc_vsum would return);
+  // its gradient with respect to every component is 1
+  int run_colvar_callback(std::string const &name, std::vector<const colvarvalue *> const &cvcs, colvarvalue &value) override
+  {
+    if (name != "vsum") return COLVARS_NOT_IMPLEMENTED;
+    cvm::real sum = 0.0;
+    for (size_t i = 0; i < cvcs.size(); i++) sum += cvcs[i]->real_value;
+    value = colvarvalue(sum);
+    return COLVARS_OK;
+  }
+  int run_colvar_gradient_callback(std::string const &name, std::vector<const colvarvalue *> const & /* cvcs */,
+                                   std::vector<cvm::matrix2d<cvm::real> > &gradient) override
+  {
+    if (name != "vsum") return COLVARS_NOT_IMPLEMENTED;
+    for (size_t i = 0; i < gradient.size(); i++) gradient[i][0][0] = 1.0;
+    return COLVARS_OK;
   }
   // (C12) the scripted-force task: what a `calc_colvar_forces` Tcl procedure would do with `cv colvar <v> addforce <f>`
   int run_force_callback() override
@@ -584,6 +619,11 @@ struct vsim_session {
       if (proxy->cvc_loop_ran) {
         o << "ITEMS";
         for (auto &p : proxy->last_cvc_items) o << " " << p.first << ":" << p.second;
+        o << "\n";
+      }
+      if (proxy->cvc_loop_ran && proxy->last_item_threads.size()) {
+        o << "ITHREADS";
+        for (int t : proxy->last_item_threads) o << " " << t;
         o << "\n";
       }
       if (proxy->bias_loop_ran) {
